@@ -18,9 +18,12 @@ PresentOK ==
   LET acc == Acceptable(Ev.entry, Ev.eased, Ev.ip, Ev.hash, Ev.type, Ev.key, Ev.easing) IN
   /\ Ev.outcome \in {"ok", "error"}                 \* never a crash
   /\ (Ev.outcome = "ok") = acc                      \* AcceptIffProved
-  /\ acc => (Ev.session /\ Ev.stored /\ Ev.boundkey = "presented")
-  /\ ~acc /\ Ev.ip # "known" => (~Ev.session /\ ~Ev.stored /\ Ev.boundkey = "none")   \* BindingOnlyIfProved
-  /\ ~acc /\ Ev.ip = "known" => Ev.boundkey = "previous"                              \* NoTakeover
+  /\ ~Ev.met /\ acc => (Ev.session /\ Ev.stored /\ Ev.boundkey = "presented")
+  /\ ~Ev.met /\ ~acc /\ Ev.ip # "known" => (~Ev.session /\ ~Ev.stored /\ Ev.boundkey = "none")   \* BindingOnlyIfProved
+  /\ ~Ev.met /\ ~acc /\ Ev.ip = "known" => Ev.boundkey = "previous"                              \* NoTakeover
+  \* met: the victim learned the TRUE identity of this address earlier (completed handshake, link closed since);
+  \* whatever tuple the holder of the key presents now, the key learned then stays bound
+  /\ Ev.met => (Ev.session /\ Ev.boundkey = "previous")
 
 GeneratedOK ==
   /\ ~Ev.panic
